@@ -271,6 +271,7 @@ type copier struct {
 	mode                           *int
 	modeSet                        *mode.Set
 	inodes                         map[uint64]string
+	linkDst                        map[string]os.FileInfo // what was written at a path remembered in inodes
 	xattrErrorHandler              XAttrErrorHandler
 	includePatternMatcher          *patternmatcher.PatternMatcher
 	excludePatternMatcher          *patternmatcher.PatternMatcher
@@ -314,6 +315,7 @@ func newCopier(root string, chown Chowner, tm *time.Time, mode *int, modeSet *mo
 	return &copier{
 		root:                           root,
 		inodes:                         map[uint64]string{},
+		linkDst:                        map[string]os.FileInfo{},
 		chown:                          chown,
 		utime:                          tm,
 		xattrErrorHandler:              xeh,
@@ -413,11 +415,25 @@ func (c *copier) copy(ctx context.Context, src, srcComponents, target string, ov
 			return errors.Wrap(err, "failed to get hardlink")
 		}
 		if link != "" {
+			// the copy of this inode made earlier may have been replaced since (matches of a wildcard
+			// source with the same base name): only link to what was written for it
+			if lfi, err := os.Lstat(link); err != nil || !os.SameFile(lfi, c.linkDst[link]) {
+				link = ""
+			}
+		}
+		if link != "" {
 			if err := os.Link(link, target); err != nil {
 				return errors.Wrap(err, "failed to create hard link")
 			}
-		} else if err := copyFile(src, target); err != nil {
-			return errors.Wrap(err, "failed to copy files")
+		} else {
+			if err := copyFile(src, target); err != nil {
+				return errors.Wrap(err, "failed to copy files")
+			}
+			if _, isHardlink := getLinkInfo(fi); isHardlink {
+				if lfi, err := os.Lstat(target); err == nil {
+					c.linkDst[target] = lfi
+				}
+			}
 		}
 	case (fi.Mode() & os.ModeSymlink) == os.ModeSymlink:
 		link, err := os.Readlink(src)
